@@ -75,6 +75,13 @@ def nid_of(x):
     return int(x[1:])
 
 
+class UserError(Exception):
+    pass
+
+
+RAISED = (ValueError, KeyError, IndexError, UserError, AssertionError, StopIteration, AttributeError, OSError)
+
+
 class KillNow(BaseException):
     """raised by a storage hook: the process dies before executing this primitive"""
 
@@ -253,7 +260,9 @@ def make_app_class(versions=(0,)):
         @replicated
         def op(self, cid, pad, raises):
             if raises:
-                raise ValueError('cmd %d raises' % cid)
+                # whatever a user method may raise: the library's own handlers (KeyError for an unknown method id,
+                # IndexError, ...) must not mistake it for one of theirs
+                raise RAISED[cid % len(RAISED)]('cmd %d raises' % cid)
             self.history.append(cid)
             return len(self.history)
 
